@@ -564,4 +564,35 @@ def replay(env, vc, model):
     return {'resolve': resolve_replay, 'visitor': visitor_replay, 'binders': binder_replay}[env['mode']](env, vc, model)
 
 
-crosscheck = None
+def crosscheck(env, r):
+    """differential check of the generator against CPython for the visitor: the template is printed under one model
+    of the path condition, the REAL CallListerVisitor runs on the parsed text, and what it records for the call must be
+    what the interpreted visitor recorded on this path"""
+    if env['mode'] != 'visitor':
+        return None
+    s = r.ctx.solver
+    if s.check() != z3.sat:
+        return 'path condition not satisfiable at path end'
+    model = s.model()
+    from vf.concrete import real_sigtools
+    real_sigtools()
+    from sigtools import _autoforwards
+    try:
+        src = _unparse_with(model, env['fn'], env['P'])
+        tree = ast.parse(src).body[0]
+    except SyntaxError:
+        return None          # e.g. ``nonlocal`` of a name that is no enclosing local: not a Python program
+    try:
+        v = _autoforwards.CallListerVisitor(tree)
+        nat = ('return', [(c.use_varargs, c.use_varkwargs, c.hide_args, c.hide_kwargs, len(c.args), sorted(c.kwargs)) for c in v.calls
+                          if isinstance(c.wrapped, _autoforwards.Name) and c.wrapped.name == 'callee'])
+    except Exception as e:
+        nat = ('raise', type(e).__name__)
+    if r.outcome == 'raise':
+        mine = ('raise', r.exc.typname)
+    else:
+        mine = ('return', [(c.use_varargs, c.use_varkwargs, c.hide_args, c.hide_kwargs, len(c.args), sorted(k for k, _ in c.kwargs.items_)) for c in r.value._d['calls']
+                           if isinstance(c.wrapped, Inst) and c.wrapped._cls.name == 'Name' and c.wrapped._d.get('name') == 'callee'])
+    if mine != nat:
+        return 'visitor on %r: symbolic %r, native %r' % (src, mine, nat)
+    return None
